@@ -330,3 +330,36 @@ class Result:
             self.prop, self.tier, cov["states"], cov["transitions"], cov["traces_validated_against_impl"],
             cov["evaluations"], wall, len(self.violations), len(self.other_flags)))
         return 1 if self.violations else 0
+
+
+# ----------------------------------------------------------------------------- the composed stack (Stack.tla)
+def stack_model(res, wd):
+    """Stack.tla: client -> queuing sink -> buffered sink -> wire; end-to-end conservation + liveness; mutants refuted."""
+    def run(bug, qcap=2, cap=5):
+        def go():
+            cfg = os.path.join(wd, "stack-%s-%d-%d.cfg" % (bug, qcap, cap))
+            write_cfg(cfg, spec="LiveSpec", constants={"QCap": qcap, "Cap": cap, "MaxMetrics": 4, "Lens": "{1, 3, 6}", "Bug": bug},
+                      invariants=["Framing", "NoDupNoAlien", "EndToEnd", "FlushEmpties"], properties=["Eventually"])
+            r, out = tlc("Stack", cfg, wd, workers=4, timeout=1800, tag="stack" + bug)
+            return r
+        return tlc_cached("stack-%s-%d-%d" % (bug, qcap, cap), go, deps=["Stack.tla"])
+    for (q, c) in ((2, 5), (1, 4)):
+        r = run("none", q, c)
+        if r.get("violated") or r.get("errors") or not r.get("ok"):
+            raise ToolError("Stack.tla violates its end-to-end properties: %s %s" % (r.get("violated"), r.get("errors")))
+        res.add_tlc(r)
+    for b in ("drop-no-flush", "flush-noop"):
+        if not run(b)["violated"]:
+            raise ToolError("Stack.tla mutant %s not refuted" % b)
+    res.notes["stack_model"] = "Stack.tla: end-to-end conservation/framing/flush + liveness for 2 configurations; mutants drop-no-flush, flush-noop refuted"
+
+
+def stack_traces(res, tier, seed, wd):
+    """One execution of the real stack, written as a queue-level and as a writer-level trace."""
+    runs = 20 if tier == "quick" else 400
+    tq = os.path.join(wd, "trace-stack-queue.ndjson")
+    tw = os.path.join(wd, "trace-stack-writer.ndjson")
+    s, _ = cvh(["stack-drive", "--seed", seed, "--runs", runs, "--out-queue", tq, "--out-writer", tw], timeout=3000)
+    res.notes["stack_runs"] = s["runs"]
+    log("[B] %d runs of the real stack client -> QueuingMetricSink -> buffered sink -> wire (%d calls)" % (s["runs"], s["calls"]))
+    return tq, tw, s["runs"]
